@@ -130,6 +130,9 @@ func (rec *Record) TryCompress() {
 		return
 	}
 	body := rec.Payload.Body
+	if len(body) == 0 {
+		return
+	}
 	try := body
 	if len(body) > TRY_COMPRESS_SIZE {
 		try = try[:TRY_COMPRESS_SIZE]
